@@ -14,7 +14,9 @@ def build_runner(variant="plain", units=("mir.c", "mir-gen.c")):
     h = vlib.tree_hash([src])
     if not os.path.exists(exe) or not os.path.exists(stamp) or open(stamp).read() != h:
         vlib.cc_link(cc, flags, [src], objs, exe)
-        open(stamp, "w").write(h)
+        with open(stamp + ".tmp%d" % os.getpid(), "w") as f:
+            f.write(h)
+        os.rename(stamp + ".tmp%d" % os.getpid(), stamp)
     return exe
 
 
